@@ -25,8 +25,8 @@ def S(*xs):
 
 
 def mc(name, clients=("c1", "c2"), maxops=2, ops=("send", "call", "ping", "stop"), scripts="ScriptsCore", cfgs="CfgsCore",
-       kinds="InitKindsAddr", faults=(), maxfaults=0, horizon=0, names="NamesSmall", must_cover=(), idle=False):
-    return {"name": name, "Actor": S("a1"), "Client": S(*clients), "MaxOps": maxops, "OpSet": S(*ops), "Scripts": "<- " + scripts,
+       kinds="InitKindsAddr", faults=(), maxfaults=0, horizon=0, names="NamesSmall", must_cover=(), idle=False, actors=("a1",), extra_actors="NoExtra", extra_handles="NoExtra"):
+    return {"name": name, "Actor": S(*actors), "ExtraActors": "<- " + extra_actors, "ExtraHandles": "<- " + extra_handles, "Client": S(*clients), "MaxOps": maxops, "OpSet": S(*ops), "Scripts": "<- " + scripts,
             "Cfgs": "<- " + cfgs, "InitKinds": "<- " + kinds, "Faults": S(*faults), "MaxFaults": maxfaults, "Horizon": horizon, "IdleClock": "TRUE" if idle else "FALSE",
             "Names": "<- " + names, "must_cover": list(must_cover)}
 
@@ -161,6 +161,16 @@ PROPS = {
         "dev_demo": [("D2", mc("Kinds-2x2", ops=KOPS, scripts="ScriptsStop", cfgs="CfgsUnb", kinds="InitKindsCaller"))],
         "families": [("life", 250, 2500)],
         "relevant": r'"op":"(caller|sender|upgrade|weak_caller|weak_sender)"|ctx_stop', "relevant_min": 1,
+    },
+    "C16": {
+        "invariants": ["C16", "Term_WeakInert", "C05"],
+        "mc": {"quick": [mc("Tree-1x2", clients=("c1",), actors=("a1", "a2", "a3"), extra_actors="TreeActors", extra_handles="TreeHandles1", ops=("send", "stop", "drop"), scripts="ScriptsTree",
+                            cfgs="CfgsParent", must_cover=("ScriptStep", "MailboxClosed", "HandleBegin")),
+                         mc("Flat-2x1", maxops=1, actors=("a1", "a2"), extra_actors="FlatActors", extra_handles="FlatHandles", ops=("send", "stop", "drop"), scripts="ScriptsTree", cfgs="CfgsParent")],
+               "thorough": [mc("Tree-1x3", maxops=3, clients=("c1",), actors=("a1", "a2", "a3"), extra_actors="TreeActors", extra_handles="TreeHandles1", ops=("send", "stop", "drop", "restart"), scripts="ScriptsTree", cfgs="CfgsParent"),
+                            mc("Tree-cancel-1x2", clients=("c1",), actors=("a1", "a2", "a3"), extra_actors="TreeActors", extra_handles="TreeHandles1", ops=("send", "stop", "drop"), scripts="ScriptsTree", cfgs="CfgsParent", faults=("cancel",), maxfaults=1)]},
+        "families": [("tree", 300, 3000)],
+        "relevant": r'"e":"(add_child|register_bc|register_bc2|broadcast_\w+)"', "relevant_min": 1,
     },
     "C17": {
         "invariants": ["C17", "C04_AnnounceAfter"],
